@@ -283,7 +283,7 @@ func c19(r *Report, s *Sem) {
 	// listener goroutine
 	var lst *ssa.Function
 	for _, fn := range p.LimeFuncs() {
-		if fn.Parent() == nil || !typeIs(recvType(topLevel(fn)), p.Type("Client")) {
+		if fn.Parent() == nil {
 			continue
 		}
 		callsGob, callsListen := false, false
@@ -335,8 +335,11 @@ func c19(r *Report, s *Sem) {
 		r.Check(R2, "func "+fnName(lst)+" / each cycle re-validates the channel", p.instrPos(listenCall), !cycle && gobCall != nil, "the dispatch loop must not be re-entered on the same channel without going through getOrBuildChannel")
 	}
 
-	// ---- R3
-	for _, f := range withAnon(gob) {
+	// ---- R3 (wherever a Client method stores a new channel: the rebuild loop, or the builder when it publishes itself)
+	for _, f := range p.LimeFuncs() {
+		if !typeIs(recvType(topLevel(f)), p.Type("Client")) {
+			continue
+		}
 		for _, st := range fieldStores([]*ssa.Function{f}, chanF) {
 			if isNilConst(st.Val) {
 				continue
